@@ -81,12 +81,12 @@ def h_dims(ctx):
     (tA, lA, sA), (tB, lB, sB) = base_pair(seed, near=bool(ctx.params.get("near")))
     inputs = []
     differ = False
+    natural_tl = True
     for name, (t, l, s), salt in (("A", (tA, lA, sA), 1), ("B", (tB, lB, sB), 2)):
         pt = ctx.choose("perm-times:%s" % name, PERMS[3], free=True)
         pl = ctx.choose("perm-leads:%s" % name, PERMS[2], free=True)
         ps = ctx.choose("perm-locs:%s" % name, PERMS[3], free=True)
-        if ctx.params.get("only_one") and name == "B":
-            pass
+        natural_tl = natural_tl and pt == PERMS[3][0] and pl == PERMS[2][0]
         ai = gen.AInput(name, permute(t, pt), permute(l, pl), permute(s, ps))
         scrambled(ai, ["obs", "fcst"] if not (name == "B" and ctx.params.get("b_no_obs")) else ["fcst"], values(seed), salt)
         inputs.append(ai)
@@ -104,6 +104,20 @@ def h_dims(ctx):
         kw["tods"] = [6]
     if ctx.params.get("near") and opt == "tods6":
         kw["tods"] = [1]
+    if opt in ("lat+elev", "l+elev", "lon+elev"):
+        # two location filters together: each is defined on coordinates, so the selection cannot depend on the order in
+        # which the first file lists its locations (only the location permutations matter here: the others are skipped)
+        if not natural_tl:
+            ctx.outcome("opt=%s:skipped" % opt)
+            return
+        locs4 = sB
+        kw["elev_range"] = [locs4[0][3] - 1, locs4[1][3] + 1]           # the two lowest stations
+        if opt == "lat+elev":
+            kw["lat_range"] = [locs4[1][1] - 0.1, locs4[3][1] + 0.1]    # all but the southernmost -> station 1
+        elif opt == "lon+elev":
+            kw["lon_range"] = [locs4[1][2] - 0.1, locs4[3][2] + 0.1]
+        else:
+            kw["locations"] = [locs4[2][0], locs4[0][0]]                # -> station 0
     ref = RD.RefData(inputs, **kw)
     kind, data, site, out = CD.make_data(inputs, via=via, subdir="c02dims", **kw)
     if kind != "ok":
@@ -458,9 +472,54 @@ def h_pit_x0(ctx):
     ctx.nontrivial(not nat)
 
 
+def h_reuse(ctx):
+    """The same input OBJECT handed to two datasets one after the other (a script comparing A with B1, then with B2): what
+    the second dataset returns for A is still A's stored value at each coordinate, whatever the first partner lacked."""
+    import verif.data
+    seed = core.seed()
+    via = ctx.params["via"]
+    locs = gen.std_locs(2, seed)
+    t = [T0, T0 + DAY]
+    l = [0.0, 6.0]
+    pt = ctx.choose("perm-times:A", PERMS[2], free=True)
+    pl = ctx.choose("perm-leads:A", PERMS[2], free=True)
+    ps = ctx.choose("perm-locs:A", PERMS[2], free=True)
+    A = gen.AInput("A", permute(t, pt), permute(l, pl), permute(locs, ps))
+    B = gen.AInput("B", t[::-1], l, locs)
+    D = gen.AInput("D", t, l[::-1], locs[::-1])
+    scrambled(A, ["obs", "fcst"], values(seed), 1)
+    scrambled(B, ["obs", "fcst"], values(seed), 2)
+    scrambled(D, ["obs", "fcst"], values(seed), 5)
+    nmiss = 0
+    for f in ("obs", "fcst"):
+        for pos in D.positions():
+            if ctx.choose_bool("first-partner-lacks:%s:%r" % (f, pos)):
+                del D.fields[f][pos]
+                nmiss += 1
+    obsr = ctx.choose_bool("first-dataset-has-obsrange")
+    a_obj, b_obj, d_obj = CD.build_inputs([A, B, D], via=via, subdir="c02reuse")
+    kw1 = {"obs_range": [values(seed)[3], values(seed)[150]]} if obsr else {}
+    kind, first, site, out = H.quiet_call(verif.data.Data, [a_obj, d_obj], **kw1)
+    if kind != "ok":
+        ctx.fail("reuse:first-data-%s:%s" % (kind, site))
+        return
+    ref1 = RD.RefData([A, D], **kw1)
+    CD.check_requests(ctx, first, ref1, [["obs", "fcst"], ["obs"]], ["all", "no", "location"], "reuse-first")
+    kind, data, site, out = H.quiet_call(verif.data.Data, [a_obj, b_obj])
+    if kind != "ok":
+        ctx.fail("reuse:second-data-%s:%s" % (kind, site))
+        return
+    ref = RD.RefData([A, B])
+    sig = CD.check_requests(ctx, data, ref, [["obs", "fcst"], ["fcst"], ["obs"]], ["all", "no", "time", "leadtime", "location"], "reuse")
+    ctx.observe((pt, pl, ps, nmiss, obsr, sig))
+    ctx.outcome("missing=%d" % nmiss)
+    ctx.flag("orders-differ")
+    ctx.nontrivial(nmiss > 0 or obsr)
+
+
 def plan(tier):
     q = tier == "quick"
-    p = [("dims-mem", h_dims, {"via": "mem", "options": ["none", "dates", "tods", "times"]}),
+    p = [("dims-mem", h_dims, {"via": "mem", "options": ["none", "dates", "tods", "times", "lat+elev", "l+elev", "lon+elev"]}),
          ("dims-nc", h_dims, {"via": "nc", "options": ["none", "tods"] if not q else ["tods"], "only_one": q}),
          ("dims-borrowed-obs", h_dims, {"via": "mem", "options": ["none"], "b_no_obs": True}),
          ("dims-near", h_dims, {"via": "mem", "options": ["none", "times"], "near": True}),
@@ -469,7 +528,8 @@ def plan(tier):
          ("order2", h_order, {"n": 2}), ("order3", h_order, {"n": 3}),
          ("columns", h_columns, {}),
          ("fields-mem", h_fields, {"via": "mem"}), ("fields-text", h_fields, {"via": "text"}), ("fields-nc", h_fields, {"via": "nc"}),
-         ("pit-x0-mem", h_pit_x0, {"via": "mem"}), ("pit-x0-nc", h_pit_x0, {"via": "nc"})]
+         ("pit-x0-mem", h_pit_x0, {"via": "mem"}), ("pit-x0-nc", h_pit_x0, {"via": "nc"}),
+         ("reuse-mem", h_reuse, {"via": "mem"}), ("reuse-text", h_reuse, {"via": "text"})]
     if not q:
         p.append(("order4", h_order, {"n": 4}))
     return p
@@ -486,6 +546,10 @@ def run(tier, only=None):
             # use dev(3) over the six permutation choice points instead (every pair of permuted dimensions)
             st = explore.explore(h_dims_bounded, mode="dev", k=2, params=params, repo_root=core.REPO)
             bound = "dev(2) over the six per-dimension permutations of two NetCDF inputs, with -tod"
+        elif name.startswith("reuse"):
+            kk = 2 if tier == "quick" else 3
+            st = explore.explore(h, mode="dev", k=kk, params=params, repo_root=core.REPO, time_cap=(600 if tier == "quick" else 1500))
+            bound = "full 8 orders of the reused input x dev(%d) over the cells the first partner lacks and -obsrange on the first dataset" % kk
         else:
             st = explore.explore(h, mode="full", params=params, repo_root=core.REPO, time_cap=(600 if tier == "quick" else 1500))
             bound = "full product"
